@@ -129,13 +129,13 @@ def bodyText : Handler := fun j => do
     ("ok_body", Json.bool (ReportText.okBody b)),
     ("costs_ok", Json.bool (ReportText.costsOK ReportText.showFloat (ReportText.rowCostText zeno) ReportText.readDecimal b))])
 
-/-- `c17.body_parse`: the spec's reading of body lines, or of the body text (`ReportText.parseBody readDecimal`,
+/-- `c17.body_parse`: the spec's reading of body lines, or of the body text (`ReportText.parseBodyStrict readDecimal`,
 after `ReportText.splitLines` for a text); `null` = unreadable. -/
 def bodyParse : Handler := fun j => do
   let ls ← match j.getObjVal? "text" with
     | .ok t => pure (ReportText.splitLines (← t.getStr?).toList)      -- the text itself: `split("\n")` of the spec
     | .error _ => pure ((← strList (← j.getObjVal? "lines")).map String.toList)
-  match ReportText.parseBody ReportText.readDecimal ls with
+  match ReportText.parseBodyStrict ReportText.readDecimal ls with
   | none => pure Json.null
   | some b => pure (bodyJson b)
 
